@@ -12,7 +12,7 @@ macro "inv_ev_D" : tactic => `(tactic| (
   all_goals (try simp only [beq_iff_eq, Bool.or_eq_true] at *)
   all_goals (first | exact h | (
     obtain ⟨h1, h2⟩ := h
-    constructor <;> (try simp only [upd'_apply, upd_apply, setFlavTid_phase, setFlavTid_guard, setFlavTid_pay, setFlavTid_fl, setFlavTid_starts, setFlavTid_tid, setFlavTid_latch, setFlavTid_rtask, setFlavTid_gather, setFlavTid_stopReq, setFlavTid_flushed, setFlavTid_execs, setFlavTid_failedQuiet, setFlavTid_pids]) <;> grind [step.upd', upd, St.quiet, St.closing, Out.failing, Out.loopKiller, St.setFlavTid, St.tidOK, St.coBusy, Flav.isCo, Phase.restartable, Latch.isFailed]))))
+    constructor <;> (try simp only [upd'_apply, upd_apply, setFlavTid_phase, setFlavTid_guard, setFlavTid_pay, setFlavTid_fl, setFlavTid_starts, setFlavTid_tid, setFlavTid_latch, setFlavTid_rtask, setFlavTid_gather, setFlavTid_stopReq, setFlavTid_flushed, setFlavTid_execs, setFlavTid_failedQuiet, setFlavTid_holder, setFlavTid_pids]) <;> grind [step.upd', upd, St.quiet, St.closing, Out.failing, Out.loopKiller, St.setFlavTid, St.tidOK, St.coBusy, Flav.isCo, Phase.restartable, Latch.isFailed]))))
 
 theorem InvD_acceptBegin (s s' : St) (r : Nat) (h : InvD s) (hs : step s (.acceptBegin r) = some s') : InvD s' := by
   inv_ev_D
@@ -77,6 +77,12 @@ theorem InvD_gatherDone (s s' : St)  (h : InvD s) (hs : step s .gatherDone = som
 theorem InvD_discard (s s' : St) (p : Nat) (h : InvD s) (hs : step s (.discard p) = some s') : InvD s' := by
   inv_ev_D
 
+theorem InvD_hold (s s' : St) (p h' : Nat) (h : InvD s) (hs : step s (.hold p h') = some s') : InvD s' := by
+  inv_ev_D
+
+theorem InvD_dropUnit (s s' : St) (p : Nat) (h : InvD s) (hs : step s (.dropUnit p) = some s') : InvD s' := by
+  inv_ev_D
+
 theorem InvD_step (s s' : St) (e : Ev) (h : InvD s) (hs : step s e = some s') : InvD s' := by
   cases e with
   | acceptBegin r => exact InvD_acceptBegin s s' r h hs
@@ -100,5 +106,7 @@ theorem InvD_step (s s' : St) (e : Ev) (h : InvD s) (hs : step s e = some s') : 
   | gatherRaise f => exact InvD_gatherRaise s s' f h hs
   | gatherDone  => exact InvD_gatherDone s s'  h hs
   | discard p => exact InvD_discard s s' p h hs
+  | hold p h' => exact InvD_hold s s' p h' h hs
+  | dropUnit p => exact InvD_dropUnit s s' p h hs
 
 end Cobald.Runtime
